@@ -166,6 +166,12 @@ def _oneshot_construction(ctx, u, name, mk_key, enc, dec, nonce_lens, tag_lens, 
         kb = mk_key(ctx, key)
         ctx.begin([name, 'encrypt', det])
         r = enc(kb, nonce, aad, msg, taglen)
+        if r is None and name == 'sm4-ccm' and mlen >= 1 << (8 * (15 - nl)):
+            # CCM is not defined for a message whose length does not fit its 15 - noncelen length octets: refusing is right
+            ctx.stat('ccm_unrepresentable_length_refused')
+            ctx.ok()
+            kb.free()
+            continue
         if not h._check(ctx, r is not None, name + ':encrypt-failed', **det):
             kb.free()
             continue
